@@ -352,6 +352,8 @@ def run(chk):
     rule_writers_reach(chk, prog, cg)
     rule_gap_shape(chk, prog)
     rule_order(chk, prog)
+    from .c01 import rule_solve_uses_satisfy
+    rule_solve_uses_satisfy(chk, prog)       # removeoverlaps publishes what Solver::solve leaves in finalPosition
     from ..rules import mirrors
     r = chk.rule("MIRROR", "the X and Y twins of vpsc::Rectangle (getters, overlapX/Y, moveCentreX/Y, set_width/height, borders, "
                  "min/max accessors) and of the scan-line Node stay exact mirror images (tables/mirrors.json)", floor=10)
